@@ -980,6 +980,9 @@ func (g *Gen) indexCatalogSweep() []E {
 	fields := []string{"x", "xy", "n", "n.a", "s", "k"}
 	g.r.Shuffle(len(fields), func(i, j int) { fields[i], fields[j] = fields[j], fields[i] })
 	fields = fields[:3+g.r.Intn(3)]
+	if g.chance(0.5) { // names are strings of bytes: two that are not UTF-8 and differ in one such byte
+		fields = append(fields, "k\xff", "k\xfe")
+	}
 	for _, f := range fields {
 		if !g.idx[c][f] {
 			g.idx[c][f] = true
